@@ -243,7 +243,7 @@ def parse_event(line):
     return ev
 
 
-def run_batch(exe, plans, timeout=20, cwd=None):
+def run_batch(exe, plans, timeout=8, cwd=None):
     """plans: list of (id, plan_text).  Returns dict id -> RunResult."""
     d = os.path.dirname(exe)
     fd, path = tempfile.mkstemp(prefix='batch-', dir=d)
@@ -273,6 +273,8 @@ def run_batch(exe, plans, timeout=20, cwd=None):
         elif cur is not None and line:
             cur.raw.append(line)
     err = p.stderr.decode('latin-1')
+    for k in [k for k, r in res.items() if r.status == 'skipped']:
+        del res[k]
     for r in res.values():
         r.stderr = err if r.status not in ('exit=0',) else ''
         if r.status and r.status.startswith('signal=') and r.raw and not r.raw[-1].split(' ')[2:3] == ['Q']:
@@ -286,7 +288,7 @@ def run_batch(exe, plans, timeout=20, cwd=None):
     return res
 
 
-def run_one(exe, plan_text, timeout=20):
+def run_one(exe, plan_text, timeout=8):
     return run_batch(exe, [('x', plan_text)], timeout)['x']
 
 
